@@ -161,6 +161,18 @@ Theorem C18_depends_on_relevant_lookups : forall (T : list rule) (nodes : list Z
   way_polygon T nodes ts = way_polygon T nodes ts'.
 Proof. exact way_polygon_ext. Qed.
 
+(* Tags.Find on a tag set: the value of the tag with that key, "" when there is none *)
+Theorem C18_find_spec : forall (ts : tags) (k : string),
+  NoDup (keys ts) ->
+  (forall v, In (k, v) ts -> find k ts = v) /\
+  (~ In k (keys ts) -> find k ts = "") /\
+  lookup ts k = find k ts.
+Proof.
+  intros ts k Hnd. split; [intros v; exact (find_in k v ts Hnd)|].
+  split; [exact (find_notin k ts)|exact (lookup_find ts k Hnd)].
+Qed.
+Print Assumptions C18_find_spec.
+
 (* ---- 5. relations ---- *)
 
 Theorem C18_relation_polygon_spec : forall ts : tags,
